@@ -15,6 +15,13 @@ NCPU = int(os.environ.get("VERIF_JOBS", "16"))
 COVPATH = (os.pathsep + os.path.join(ROOT, "harness", "covsite")) if os.environ.get("VERIF_COVER_DIR") else ""
 
 
+def hashseed_for(obj):
+    """PYTHONHASHSEED for a child interpreter: a pure function of the case (so runs repeat), spread over several values so
+    that set / dict-of-str iteration order in the library is not always the one of seed 0"""
+    import zlib
+    return str(zlib.crc32(json.dumps(obj, sort_keys=True, default=str).encode()) % 13)
+
+
 class HarnessError(Exception):
     pass
 
@@ -273,6 +280,7 @@ def run_shards_optimised(modname, fn, kwargs_list):
                 "r = core._shard_entry((%r, %r, json.loads(sys.stdin.read()))); print('\\nSHARD-RESULT ' + json.dumps(r))" % (modname, fn))
         envv = dict(os.environ)
         envv["PYTHONPATH"] = os.pathsep.join([ROOT, os.environ.get("VERIF_REPO", "/repo")] + [p for p in os.environ.get("PYTHONPATH", "").split(os.pathsep) if p]) + COVPATH
+        envv["PYTHONHASHSEED"] = str(1 + int(hashseed_for(kw)))       # these shards double as the "another hash seed" configuration
         procs.append(subprocess.Popen([sys.executable, "-O", "-c", code], stdin=subprocess.PIPE, stdout=subprocess.PIPE,
                                       stderr=subprocess.PIPE, text=True, cwd=ROOT, env=envv))
         procs[-1].stdin.write(json.dumps(kw))
